@@ -41,7 +41,7 @@ type CReq struct {
 
 func (r CReq) String() string {
 	switch r.Kind {
-	case "att", "atts":
+	case "att", "atts", "atts-nokey", "atts-nildata":
 		var l []string
 		for i, k := range r.Keys {
 			l = append(l, fmt.Sprintf("k%d:%d->%d", k, r.S[i], r.T[i]))
@@ -151,7 +151,7 @@ func runReq(ctx context.Context, rl ruler.Service, keys [][]byte, r CReq) []bool
 	var action string
 	var data []*ruler.RulesData
 	switch r.Kind {
-	case "att", "atts":
+	case "att", "atts", "atts-nokey", "atts-nildata":
 		action = ruler.ActionSignBeaconAttestation
 		for i, k := range r.Keys {
 			data = append(data, &ruler.RulesData{WalletName: "Wallet 1", AccountName: fmt.Sprintf("acct-%d", k), PubKey: keys[k],
@@ -171,6 +171,16 @@ func runReq(ctx context.Context, rl ruler.Service, keys [][]byte, r CReq) []bool
 				Data: &rules.SignData{Domain: dom, Data: pat(9)}})
 		}
 	}
+	switch r.Kind {
+	case "atts-nokey":
+		if len(data) > 1 {
+			data[len(data)-1].PubKey = nil
+		}
+	case "atts-nildata":
+		if len(data) > 1 {
+			data[len(data)-1].Data = nil
+		}
+	}
 	res := rl.RunRules(ctx, concCreds, action, data)
 	out := make([]bool, len(data))
 	for i := range out {
@@ -186,6 +196,8 @@ func seqModel(order []*callRec, nkeys int) (verdicts map[*callRec][]bool, final 
 	for _, c := range order {
 		v := make([]bool, len(c.req.Keys))
 		switch c.req.Kind {
+		case "atts-nokey", "atts-nildata":
+			// A malformed batch is refused as a whole.
 		case "att", "atts":
 			seen := map[int]bool{}
 			dup := false
